@@ -311,8 +311,9 @@ func c15ValU(r *rand.Rand, t cty.Type, depth int, o c15Opts) cty.Value {
 		return cty.TupleVal(vs)
 	case t.IsObjectType():
 		vs := map[string]cty.Value{}
-		for k, at := range t.AttributeTypes() {
-			vs[k] = c15Val(r, at, depth-1, o)
+		atys := t.AttributeTypes()
+		for _, k := range sortedKeys(atys) { // sorted: every random draw in a reproducible order
+			vs[k] = c15Val(r, atys[k], depth-1, o)
 		}
 		return cty.ObjectVal(vs)
 	}
